@@ -11,14 +11,16 @@ LEAN_MODULES = ['GoSnaps.Props.C16', 'GoSnaps.Props.Tie.Flows', 'GoSnaps.Props.T
                 'GoSnaps.DriverX', 'GoSnaps.Lemmas.JsonPath', 'GoSnaps.Props.C16Json',
                 'GoSnaps.Lemmas.JsonEndToEnd', 'GoSnaps.Props.Tie.JsonEndToEnd', 'GoSnaps.Props.Tie.Wrappers']
 
-LEAVES = ['big', 'a', 's', 'o.x', 'o.y.0', 'l.0.k', 'n', 'deep.er.est', 'filter[status]', 'filter.status', 'ids[0]', 'ids.0', 'nx', 'o.xs']
+LEAVES = ['big', 'a', 's', 'o.x', 'o.y.0', 'l.0.k', 'n', 'deep.er.est', 'filter[status]', 'filter.status', 'ids[0]', 'ids.0', 'nx', 'o.xs', '$.id', 'id']
 # leaves whose path TEXT is a prefix of another leaf's path without being an ancestor of it (id / idempotencyKey)
 PREFIX_PARTNER = {'n': 'nx', 'o.x': 'o.xs', 'nx': 'n', 'o.xs': 'o.x'}
 # containers: masking one masks everything beneath it
 CONTAINERS = {'o': ['o.x', 'o.y.0', 'o.xs'], 'deep.er': ['deep.er.est'], 'deep': ['deep.er.est'], 'l.0': ['l.0.k']}
 BASE = {'big': 1585369512231022593, 'a': 1, 's': 'str', 'o': {'x': True, 'y': [1, 2], 'xs': 'plural'}, 'l': [{'k': 'v'}], 'n': 'nn', 'nx': 'nnx', 'deep': {'er': {'est': 5}},
         # keys that CONTAIN brackets next to members reachable through the dotted reading of the same text
-        'filter[status]': 'open', 'filter': {'status': 'dotted'}, 'ids[0]': 'literal', 'ids': ['element']}
+        'filter[status]': 'open', 'filter': {'status': 'dotted'}, 'ids[0]': 'literal', 'ids': ['element'],
+        # a member named `$` (attribute objects of XML converters): `$.id` is the `id` inside it, not the top-level `id`
+        '$': {'id': 'inner'}, 'id': 'top'}
 YLEAVES = ['a', 's', 'o.x', 'flag', 'log']
 YBASE = {'big': 1585369512231022593, 'a': 1, 's': 'str', 'o': {'x': 'xx'}, 'flag': False, 'log': 'line one'}
 
